@@ -101,7 +101,58 @@ def gen_seq(rng, meta, nops, shape):
     if rng.random() < 0.5:
         g.mode = rng.choice([0, 1, 2])
         seq.append("opt %d" % g.mode)
+    two = rng.random() < 0.35
+    g2 = None
+    if two:
+        # a second buffer (own size bounds and mode) for cbuf_copy / cbuf_move
+        mn2 = rng.choice([mn, rng.randrange(1, 9), rng.randrange(1, 80)])
+        mx2 = rng.choice([mn2, mx, rng.randrange(1, 41), rng.randrange(mn2, mn2 + 2100)])
+        seq.append("sel 1")
+        seq.append("create %d %d %d" % (mn2, mx2, meta))
+        g2 = Guide(mn2, mx2, meta)
+        if rng.random() < 0.6:
+            g2.mode = rng.choice([0, 1, 2])
+            seq.append("opt %d" % g2.mode)
+        g.idx, g2.idx = 0, 1
+        if rng.random() < 0.7:
+            seq.append("sel 0")
+        else:
+            g, g2 = g2, g
     for _ in range(nops):
+        r0 = rng.random()
+        if r0 < (0.34 if two else 0.2):
+            # replay side, descriptor sinks with a capacity, buffer-to-buffer
+            k = rng.random()
+            cap = rng.choice([0, 1, 2, 3, g.used - 1, g.used, g.used + 1, g.size, 1 << 20, 1 << 20])
+            cap = max(0, cap)
+            if two and k < 0.40:
+                n = rng.choice([pick_len(rng, g), pick_len(rng, g), -1, -1, 0, -2, g.used, g.used + 1, g2.size - g2.used,
+                                g2.size - g2.used + 1, g2.size + 1])
+                n = max(-2, n)
+                mv = rng.random() < 0.5
+                seq.append("%s %d" % ("move" if mv else "copy", n))
+                cnt = g.used if n == -1 else max(0, min(n, g.used))
+                g2.wrote(cnt)
+                if mv:
+                    g.took(cnt)
+            elif two and k < 0.52:
+                g, g2 = g2, g
+                seq.append("sel %d" % g.idx)
+            elif k < 0.62:
+                seq.append("replay %d" % rng.choice([pick_len(rng, g), 1, 2, 3, g.size, g.size + 1, 0, -1, -2]))
+            elif k < 0.78:
+                n = rng.choice([pick_len(rng, g), 1, 2, 3, -1, -1, 0, -2, g.size])
+                seq.append("rewind %d" % n)
+                g.used = min(g.size, g.used + (g.size if n == -1 else max(0, n)) // 2)
+            elif k < 0.86:
+                seq.append("pfd %d %d" % (rng.choice([pick_len(rng, g), -1, -1, 0, -2, g.used]), cap))
+            elif k < 0.94:
+                n = rng.choice([pick_len(rng, g), -1, -1, 0, -2, g.used])
+                seq.append("rfd %d %d" % (n, cap))
+                g.took(min(cap, g.used if n == -1 else max(0, n)))
+            else:
+                seq.append("yfd %d %d" % (rng.choice([pick_len(rng, g), -1, -1, 0, -2, 1, 2, g.size]), cap))
+            continue
         r = rng.random()
         if r < 0.30:
             n = pick_len(rng, g)
@@ -178,7 +229,10 @@ def run(ctx):
     ok2 = ctx.cc(exe_rel, [os.path.join(HARNESS, "cbuf_harness.c")], san=True, assertions=False)
     cov = {"evaluations": 0, "distinct_nontrivial": 0, "samples": [],
            "rule": "op sequences over create/opt/write/write_from_fd/write_line/read/read_to_fd/peek/drop/"
-                   "read_line/peek_line/drop_line/flush with boundary-biased lengths (free-1, free, free+1, size, "
+                   "read_line/peek_line/drop_line/flush/replay/rewind/peek_to_fd/read_to_fd/replay_to_fd (descriptor "
+                   "sinks that take 0, 1, .., used-1, used, used+1 or all bytes and then fail with EAGAIN) and, on a "
+                   "pair of buffers with independent bounds and modes (35% of the sequences), copy/move, "
+                   "with boundary-biased lengths (free-1, free, free+1, size, "
                    "size+1, 2*size+3), all three overwrite modes, buffer shapes tiny/min=max/chunk-growth/"
                    "production(64,131072); non-trivial = the sequence reached a buffer growth or an overwrite "
                    "(ndropped>0); distinct = distinct op-sequence text"}
@@ -200,20 +254,23 @@ def run(ctx):
             else:
                 replay_seq = rc["ops"] if isinstance(rc, dict) else rc
                 nseq, corpus = 0, []
-        dist = {"ops": 0, "grow_or_overwrite": 0, "shapes": {}, "crash": 0}
+        dist = {"ops": 0, "grow_or_overwrite": 0, "shapes": {}, "crash": 0, "op_kinds": {}}
         distinct = set()
         for exe, name, meta in flavours:
             seqs = [[l.replace("META", str(meta)) for l in s] for s in corpus]
             if replay_seq:
-                # a replay re-runs exactly the recorded op sequence (create line re-targeted to this flavour)
-                first = replay_seq[0].split()
-                seqs.append([" ".join(first[:3] + [str(meta)])] + list(replay_seq[1:]))
+                # a replay re-runs exactly the recorded op sequence (create lines re-targeted to this flavour)
+                seqs.append([" ".join(l.split()[:3] + [str(meta)]) if l.startswith("create ") else l
+                             for l in replay_seq])
             for i in range(nseq):
                 shape = rng.choices(["tiny", "fixed", "chunk", "prod"], [50, 15, 25, 10])[0]
                 dist["shapes"][shape] = dist["shapes"].get(shape, 0) + 1
                 seqs.append(gen_seq(rng, meta, rng.randrange(4, 40 if shape != "prod" else 14), shape))
             if ctx.tier == "thorough" and name.startswith("assert") and not replay_seq:
                 seqs += exhaustive_small(meta)
+            # every sequence starts from nothing (both buffers gone, first buffer selected): the three
+            # runs stay in step even when the implementation's process had to be restarted after a crash
+            seqs = [s if s and s[0] == "reset" else ["reset"] + s for s in seqs]
             impl = run_batch([exe], seqs, env=dict(os.environ, ASAN_OPTIONS="detect_leaks=0"))
             text = "".join(l + "\n" for s in seqs for l in s)
             mlines = ctx.model("cbuf", text, args=["model"])
@@ -225,6 +282,11 @@ def run(ctx):
                 pos += len(s)
                 cov["evaluations"] += 1
                 dist["ops"] += len(s)
+                for l, a_ in zip(s, ans):
+                    k = l.split()[0]
+                    dist["op_kinds"][k] = dist["op_kinds"].get(k, 0) + 1
+                    if a_ in ("bad-op", "no-cbuf"):
+                        dist["refused_lines"] = dist.get("refused_lines", 0) + 1
                 if nontrivial(ans):
                     key = hash("\n".join(s))
                     if key not in distinct:
@@ -295,7 +357,8 @@ def annotate(seqs, answers):
             ret, size = "0", "0"
             if " | " in a:
                 # a crash (assertion abort) can leave a truncated last answer line
-                head, tail = a.split(" | ", 1)
+                segs = a.split(" | ")
+                head, tail = segs[0], segs[-1]      # copy/move: the last group is the destination buffer
                 ret = (head.split() or ["0"])[0]
                 size = (tail.split() or ["0"])[0]
                 if not size.isdigit():
